@@ -260,6 +260,13 @@ def make_clip(case):
             inside = h.and_(h.le(vb[0], bx0), h.le(bx1, vb[0] + vb[2]), h.le(vb[1], by0), h.le(by1, vb[1] + vb[3]))
             if not h.symbolic:
                 _concrete_clip_check(h, inf, cmds_out, vb, e)
+                flat_in = [float(a) for _, args in inf["cmds"] for a in args]
+                flat_out = [float(a) for _, args in cmds_out for a in args]
+                untouched = [c for c, _ in cmds_out] == [c for c, _ in inf["cmds"]] and all(
+                    abs(x - y) <= 1e-6 * (1 + abs(x)) for x, y in zip(flat_in, flat_out)
+                )
+                if untouched:
+                    h.check(inside, "clip.untouched_only_when_inside", detail=(list(b), list(vb)))
                 continue
             got = regions.term_of_commands(cmds_out, FP.FillType.EVEN_ODD if e.get("fill-rule") == "evenodd" else FP.FillType.WINDING)
             leaf = _leaf(inf["cmds"], inf["fill_rule"])
